@@ -4,6 +4,7 @@ package main
 
 import (
 	"bytes"
+	"errors"
 	"context"
 	"fmt"
 	"io"
@@ -22,6 +23,8 @@ import (
 )
 
 // gtreeGoroutines counts goroutines (other than the caller) that have a frame inside package gtree.
+var errCallerCause = errors.New("verif: the caller's private reason for cancelling")
+
 func gtreeGoroutines() (int, string) {
 	buf := make([]byte, 1<<20)
 	n := runtime.Stack(buf, true)
@@ -151,7 +154,10 @@ func runMscn(t []string) string {
 	old := runtime.GOMAXPROCS(procs)
 	defer runtime.GOMAXPROCS(old)
 
-	parent, cancel := context.WithCancel(context.Background())
+	// the caller's context carries a private CAUSE: a cancelled call must still return ctx.Err()
+	// (context.Canceled), not whatever context.Cause gives
+	parent, cancelCause := context.WithCancelCause(context.Background())
+	cancel := func() { cancelCause(errCallerCause) }
 	defer cancel()
 
 	// hook: trace + seeded delays + cancellation at a point
@@ -248,11 +254,13 @@ func runMscn(t []string) string {
 	var visits []visitRec
 	cbi := 0
 	cbReturned, cbLate := false, 0
+	var kept []*gtree.WalkerNode // the callback may keep the nodes it is given and read them later
 	cb := func(wn *gtree.WalkerNode) error {
 		cmu.Lock()
 		if cbReturned {
 			cbLate++
 		}
+		kept = append(kept, wn)
 		visits = append(visits, recVisit(wn))
 		i := cbi
 		cbi++
@@ -417,6 +425,11 @@ func runMscn(t []string) string {
 	lwr.mu.Unlock()
 	cmu.Lock()
 	late += cbLate
+	for i, wn := range kept {
+		if i < len(visits) && recVisit(wn) != visits[i] {
+			late++ // a node handed to the callback says something else after the walk
+		}
+	}
 	cmu.Unlock()
 	cr.mu.Lock()
 	late += cr.lateCloses
